@@ -1,11 +1,10 @@
 #!/bin/bash
 # One-time setup after a fresh restore: warm the Go build cache (offline) by building the program and the harness once.
 set -e
-. /verif/scripts/env.sh
-rm -f $VERIF_ROOT/.build/go.work; . /verif/scripts/env.sh
-(cd /repo/cmd/hranoprovod-cli && go build -tags verif -o $VERIF_ROOT/.build/hr.setup . )
-(cd /verif/harness && go build -o $VERIF_ROOT/.build/vcheck.setup ./cmd/vcheck && go build -race -o $VERIF_ROOT/.build/vcheck.race.setup ./cmd/vcheck)
-if command -v go1.26.8 >/dev/null 2>&1; then (cd /repo/cmd/hranoprovod-cli && go1.26.8 build -tags verif -o $VERIF_ROOT/.build/hr126.setup . ) || true; fi
-rm -f $VERIF_ROOT/.build/*.setup
-git -C /repo status --porcelain | grep -q . && echo "note: /repo working tree has local changes" || true
+. "$(dirname "${BASH_SOURCE[0]}")/env.sh"
+B=$VERIF_ROOT/.build/setup.$$; mkdir -p $B; trap 'rm -rf "$B"' EXIT
+mkwork $B/go.work; export GOWORK=$B/go.work
+(cd $VERIF_REPO/cmd/hranoprovod-cli && go build -tags verif -o $B/hr . )
+(cd $VERIF_ROOT/harness && go vet ./... && go build -o $B/vcheck ./cmd/vcheck && go build -race -o $B/vcheck.race ./cmd/vcheck)
+if command -v go1.26.8 >/dev/null 2>&1; then (cd $VERIF_REPO/cmd/hranoprovod-cli && go1.26.8 build -tags verif -o $B/hr126 . ) || true; fi
 echo setup ok
